@@ -9,18 +9,21 @@ import (
 )
 
 func main() {
-	y := `module k { yang-version 1.1; namespace "urn:k"; prefix k; revision 0; identity base1; identity base2; identity d1 {base base1;} identity d2 { base base2; } identity d12 {base base1; base base2;} identity dd { base d12; }
-	leaf id1 { type identityref { base base1; } } leaf id12 { type identityref { base base1; base base2; } }
+	y := `module k { namespace "urn:k"; prefix k; revision 0;
+	leaf big { type string { length "0..18446744073709551615"; } } leaf hi { type bits { bit lo; bit top { position 64; } } }
+	leaf u { type uint64 { range "0..18446744073709551615"; } } leaf b2 { type bits { bit a { position 63; } bit b; } }
 	}`
 	m, err := parser.LoadModuleFromString(nil, y)
+	fmt.Println("load", err)
 	if err != nil {
-		panic(err)
+		return
 	}
-	for _, doc := range []string{`{"id1":"base1"}`, `{"id1":"d1"}`, `{"id1":"bogus:d1"}`, `{"id1":"k:d1"}`, `{"id1":"d2"}`, `{"id12":"d1"}`, `{"id12":"d2"}`, `{"id12":"d12"}`, `{"id12":"dd"}`, `{"id12":"base1"}`} {
+	for _, doc := range []string{`{"big":"abc"}`, `{"hi":"lo top"}`, `{"hi":"top"}`, `{"u":5}`, `{"u":18446744073709551615}`, `{"b2":"a"}`} {
 		data := map[string]interface{}{}
 		b := node.NewBrowser(m, nodeutil.ReflectChild(data))
 		src, _ := nodeutil.ReadJSON(doc)
 		err := b.Root().UpsertFrom(src)
-		fmt.Println(doc, "->", err, data)
+		out, _ := nodeutil.WriteJSON(b.Root())
+		fmt.Println(doc, "->", err, data, out)
 	}
 }
